@@ -1,6 +1,7 @@
 """C04 — PSBT parse/serialise is lossless for every field, known or unknown.
 
-Model: lean/EmbitModel/Model/Psbt.lean; theorems: Props/C04.lean. Every generated PSBT (and every corruption) is
+Model: lean/EmbitModel/Model/Psbt.lean; theorems: Props/C04.lean and Props/C04X.lean (serialise-then-parse,
+well-formedness of parse results, rejection rules, PSBTv2 transaction = BIP370 transaction). Every generated PSBT (and every corruption) is
 parsed by embit and by the Lean model in all three compression modes and the resulting objects are compared field
 by field (`psbt.parse`), as are re-serialisation (`psbt.roundtrip`) and the reconstructed unsigned transaction
 (`psbt.tx`). Independently of the model the property itself is evaluated on embit: no pair of the original lost,
@@ -18,7 +19,7 @@ import facts
 from embit.psbt import PSBT
 
 PROP = "C04"
-MODS = ["EmbitModel.Props.C04"]
+MODS = ["EmbitModel.Props.C04", "EmbitModel.Props.C04X"]
 
 
 def on(x):
@@ -105,6 +106,93 @@ def check_lossless(c, b, p, kind, g=None):
         c.fail("serialise-then-parse is not the identity", rec)
 
 
+def check_bip370(c, kind, b, p):
+    """accepted PSBTv2: embit's reconstructed transaction against the BIP370 transaction of the RAW maps
+    (Spec/Bip370.lean, evaluated by the driver; C04X.v2_tx_eq_bip370_partial proves model = spec). The two regions
+    the theorem excludes are skipped here and pinned by the witness cases in `witnesses`."""
+    if p.version != 2:
+        return
+    try:
+        sc = gen_psbt.split_scopes(b)
+    except Exception:
+        return
+    nin = len(p.inputs)
+    gkeys = [k for k, _ in sc[0]]
+    if b"\x02" not in gkeys:
+        c.tally("bip370:skipped-no-tx-version")
+        return
+    if any(k in (b"\x11", b"\x12") for m in sc[1:1 + nin] for k, _ in m):
+        c.tally("bip370:skipped-required-locktime")
+        return
+    try:
+        p.tx.serialize()
+        txs = "ok " + gen.tx_tokens(p.tx)
+    except Exception:
+        txs = "none"
+    c.tally("bip370:compared")
+    c.count(("bip370", b), nontrivial=True)
+    c.expect("psbt.bip370 " + hx(b), txs, {"kind": kind, "bytes": hx(b)[:20000]}, proven=True)
+
+
+def ss(x):
+    assert len(x) < 253
+    return bytes([len(x)]) + x
+
+
+def frame(scopes):
+    return b"psbt\xff" + b"".join(b"".join(ss(k) + ss(v) for k, v in m) + b"\x00" for m in scopes)
+
+
+def witnesses(c):
+    """the concrete points named in Props/C04X.lean, replayed on embit and on the model"""
+    G = [(b"\xfb", bytes([2, 0, 0, 0])), (b"\x02", bytes([2, 0, 0, 0])), (b"\x03", bytes([7, 0, 0, 0])),
+         (b"\x04", b"\x01"), (b"\x05", b"\x01")]
+    I = [(b"\x0e", bytes([7] * 32)), (b"\x0f", bytes([1, 0, 0, 0]))]
+    O = [(b"\x03", bytes([0x88, 0x13, 0, 0, 0, 0, 0, 0])), (b"\x04", b"\x51")]
+    base = frame([G, I, O])
+    req = frame([G, I + [(b"\x12", bytes([0x40, 0x0d, 0x03, 0x00]))], O])
+    notv = frame([[x for x in G if x[0] != b"\x02"], I, O])
+    for name, b, lock, ver, spec in (
+            ("base", base, 7, 2, "ok 2 7 1 " + "07" * 32 + " 1 - 4294967295 0 1 5000 51"),
+            # C04X.required_locktime_ignored: embit uses the fallback lock time, BIP370 the required height
+            ("required_locktime_ignored", req, 7, 2, "ok 2 200000 1 " + "07" * 32 + " 1 - 4294967295 0 1 5000 51"),
+            # C04X.missing_tx_version_defaults_to_2: embit substitutes 2, BIP370 assigns no transaction
+            ("missing_tx_version_defaults_to_2", notv, 7, 2, "none")):
+        p = impl_parse(b, 0)
+        c.count(("witness", name), nontrivial=True)
+        c.tally("witness:" + name)
+        info = {"kind": "witness:" + name, "bytes": hx(b)}
+        if p is None or p.tx.locktime != lock or p.tx.version != ver:
+            c.broken.append(("witness", "embit no longer behaves as C04X.%s states" % name))
+            continue
+        c.expect("psbt.tx 0 " + hx(b), "ok " + gen.tx_tokens(p.tx), info, proven=False)
+        c.expect("psbt.bip370 " + hx(b), spec, info, proven=False)
+    # rejection rules of C04X on embit itself (the model side is proved): tx in v2, no tx in v0, duplicate
+    # global key, duplicate scope key, count mismatch, PSBTv2 scope field in a version-0 scope
+    tx = gen.raw_tx(2, [(bytes([7] * 32), 1, b"", 0xffffffff)], [(5000, b"\x51")], 0)
+    G0 = [(b"\x00", tx)]
+    bad = {
+        "tx_in_v2": frame([G + G0, I, O]),
+        "missing_tx_v0": frame([[(b"\xfb", bytes(4))], [], []]),
+        "global_duplicate_key": frame([G + [(b"\xf0", b"\x01"), (b"\xf0", b"\x02")], I, O]),
+        "scope_duplicate_key": frame([G, I + [(b"\xf0", b"\x01"), (b"\xf0", b"\x02")], O]),
+        "count_mismatch_v2": frame([G, I, O, []]),
+        "count_mismatch_v0": frame([G0, [], [], []]),
+        "v2_scope_field_in_v0_input": frame([G0, [(b"\x10", bytes(4))], []]),
+        "v2_scope_field_in_v0_output": frame([G0, [], [(b"\x04", b"\x51")]]),
+    }
+    ok = impl_parse(frame([G0, [], []]), 0)
+    if ok is None:
+        c.broken.append(("witness", "the version-0 base case of the rejection witnesses is not accepted"))
+    for name, b in bad.items():
+        c.count(("reject", name), nontrivial=True)
+        c.tally("reject:" + name)
+        info = {"kind": "reject:" + name, "bytes": hx(b)}
+        if impl_parse(b, 0) is not None:
+            c.fail("structurally invalid PSBT accepted (%s)" % name, {"op": "psbt.parse", "kind": name, "bytes": hx(b)})
+        c.expect("psbt.parse 0 " + hx(b), "none", info, proven=True)
+
+
 def check_bytes(c, kind, b, must_reject=None, g=None):
     for compress in (0, 1, 2):
         p = impl_parse(b, compress)
@@ -129,6 +217,7 @@ def check_bytes(c, kind, b, must_reject=None, g=None):
                 except Exception:
                     txs = "err"
                 c.expect("psbt.tx 0 " + hx(b), txs, info, proven=False)
+                check_bip370(c, kind, b, p)
                 if must_reject:
                     c.fail("structurally invalid PSBT accepted (%s)" % kind, {"op": "psbt.parse", "kind": kind, "bytes": hx(b)[:20000]})
                 else:
@@ -174,11 +263,15 @@ def run(tier, seed):
               "duplicated key, dropped/extra separator, tx in v2, missing/duplicated tx in v0, swapped scopes, odd-length keys "
               "and values, bit flips); each parsed in the three compression modes. Distinct by content.")
     c.assumptions = ["public-key validity inside keys is abstract in the theorems (KeyOps); the driver uses its own secp256k1",
-                     "PSBTv2 required-locktime fields are carried as unknown keys (embit implements the fallback locktime only)"]
+                     "PSBTv2 required-locktime fields are carried as unknown keys (embit implements the fallback locktime "
+                     "only; C04X.v2_tx_eq_bip370_partial excludes them, witness required_locktime_ignored)",
+                     "well-formedness of PSBT objects (PsbtWF) is a predicate on model values; it is proved of every "
+                     "parse result (C04X.parse_wf), not evaluated on embit objects"]
     changed, err = facts.regenerate("networks")
     if err:
         c.broken.append(("facts", "cannot extract embit.networks.NETWORKS: " + err))
     c.build_and_audit()
+    witnesses(c)
     explore(c, 40 if tier == "quick" else 800, big=(tier != "quick"))
     return c.finish(search=lambda cc: explore(cc, 150, False))
 
